@@ -6,6 +6,7 @@ import GrinVerif.Model.DecVerify
 import GrinVerif.Model.SerIds
 import GrinVerif.Model.SerDb
 import GrinVerif.Model.SerImpls
+import GrinVerif.Model.SerJson
 /-! Driver glue for the `ser` domain (line protocol handler).
 
     ser const <name>                                   => <value>
@@ -20,8 +21,9 @@ import GrinVerif.Model.SerImpls
     ser prepow <chain A|M> <header tokens…>            => <BlockHeader::pre_pow()>
     ser shortid <item hash> <block hash> <nonce>       => <short_id, 6 bytes>
     ser mvlive <path hashes> <mmr_size> <live peak>    => as-model | differs:model=<bytes>   (MerkleProof::verify)
-    ser impl <R|W> <file> <type> <fingerprint>         => listed | changed:<fp> | unlisted | listed-but-no-codec:<n>
-    ser implcount <#Readable> <#Writeable>             => ok | model-lists:<r>,<w> | unknown-codec-names
+    ser implcodecs                                     => ok | unknown-codec-names:<n,…>
+    ser jhex <commit|blind|proof|sig> <utf-8 of the JSON string> [<0|1 compact sig valid>] => ok <bytes> | err | panic
+    ser jnum <utf-8 of the JSON string>                => ok <u64> | err      (FeeFields from a string)
 
 `dec` lines of `PeerData` carry the clock value the decoder used as `PeerData@<now>`.
 
@@ -576,6 +578,7 @@ def withCodec (ty : String) (k : {α : Type} → Codec α → Option String) : O
   | "Identifier" => k (cFixed IDENTIFIER_SIZE)
   | "Signature" => k (cFixed SIGNATURE_SIZE)
   | "Hash" => k (cFixed HASH_SIZE)
+  | "PublicKey" => k (plain decPublicKeyReal encFixedN tHex)
   | "PeerData" => k (cPeerData 0)
   | other =>
     match other.splitOn "@" with
@@ -585,24 +588,12 @@ def withCodec (ty : String) (k : {α : Type} → Codec α → Option String) : O
 /-- does the dispatch know this type name? -/
 def hasCodec (n : String) : Bool := (withCodec n fun _ => some "").isSome
 
-/-- `ser impl`: the table's answer, and a listed impl must point at something the driver compares -/
-def runImpl (kind file ty : String) (fp : Nat) : String :=
-  let a := GV.SerImpls.answer kind file ty fp
-  if a != "listed" then a
-  else match GV.SerImpls.lookup kind file ty with
-    | some i =>
-      (match i.cover with
-       | .op n => if GV.SerImpls.opNames.contains n then a else s!"listed-but-no-op:{n}"
-       | .excluded _ => a
-       | c => match c.ref? with
-         | some n => if hasCodec n then a else s!"listed-but-no-codec:{n}"
-         | none => a)
-    | none => a
-
-def runImplCount (r w : Nat) : String :=
-  if !(GV.SerImpls.codecNames.all hasCodec) then "unknown-codec-names"
-  else if GV.SerImpls.count "R" = r ∧ GV.SerImpls.count "W" = w then "ok"
-  else s!"model-lists:{GV.SerImpls.count "R"},{GV.SerImpls.count "W"}"
+/-- `ser implcodecs`: every codec name the inventory (`Model/SerImpls.lean`) refers to is one the
+dispatch knows -/
+def runImplCodecs : String :=
+  match GV.SerImpls.codecNames.filter (fun n => !hasCodec n) with
+  | [] => "ok"
+  | l => "unknown-codec-names:" ++ String.intercalate "," l
 
 def showPrim {α : Type} (sh : α → String) (bs : Bytes) : Except SerErr (α × Bytes) → String
   | .ok (x, r) => s!"ok {sh x} {bs.length - r.length}"
@@ -676,6 +667,20 @@ def runMvLive (n size peak : Nat) : String :=
   let hi := GV.DecVerify.HASH_BYTES * n + 8 * (max 4 (2 * p)) + 8192
   if lo ≤ peak ∧ peak ≤ hi then "as-model" else s!"differs:model={lo}"
 
+def showField : GV.SerJson.FieldRes → String
+  | .ok v => "ok " ++ toHex v
+  | .err => "err"
+  | .panic => "panic"
+
+/-- `ser jhex`: the string-field readers of `secp_ser.rs` -/
+def runJHex (kind : String) (s : Bytes) (sigValid : Bool) : Option String :=
+  match kind with
+  | "commit" => some (showField (GV.SerJson.commitFromHex s))
+  | "blind" => some (showField (GV.SerJson.blindFromHex s))
+  | "proof" => some (showField (GV.SerJson.proofFromHex s))
+  | "sig" => some (showField (GV.SerJson.sigFromHex (fun _ => sigValid) s))
+  | _ => none
+
 def ofOpt (impl : String) : Option String → Verdict
   | some m => cmpModel m impl
   | none => .unknown
@@ -734,10 +739,15 @@ def handle (st : St) (args : List String) (impl : String) : St × Verdict :=
       let b ← parseHex blk
       let n ← nonce.toNat?
       some (toHex (shortId h256 i b n))))
-  | ["impl", kind, file, ty, fp] =>
-    (st, ofOpt impl (fp.toNat?.map fun n => runImpl kind file ty n))
-  | ["implcount", r, w] =>
-    (st, ofOpt impl (do let r ← r.toNat?; let w ← w.toNat?; some (runImplCount r w)))
+  | ["jhex", kind, hex] =>
+    (st, ofOpt impl ((parseHex hex).bind fun s => runJHex kind s false))
+  | ["jhex", kind, hex, flag] =>
+    (st, ofOpt impl ((parseHex hex).bind fun s => runJHex kind s (flag == "1")))
+  | ["jnum", hex] =>
+    (st, ofOpt impl ((parseHex hex).map fun s => match GV.SerJson.parseU64 s with
+      | some n => s!"ok {n}"
+      | none => "err"))
+  | ["implcodecs"] => (st, ofOpt impl (some runImplCodecs))
   | ["fromvec", hex] =>
     (st, ofOpt impl ((parseHex hex).map fun bs => toHex (hashFromVec bs)))
   | _ => (st, .unknown)
